@@ -10,6 +10,7 @@ at the top-level directory.
 */
 
 #include "slu_mt_cdefs.h"
+#include "slu_mt_verif.h"
 
 void
 pcgstrf_thread_finalize(pcgstrf_threadarg_t *pcgstrf_threadarg, 
@@ -111,6 +112,7 @@ pcgstrf_thread_finalize(pcgstrf_threadarg_t *pcgstrf_threadarg,
 	}
     }
     *pxgstrf_shared->info = iinfo;
+    SLU_VERIF_EV("Wrap", -1, nnzL, nnzU, Glu->supno[n], iinfo);
 
 #if ( DEBUGlevel>=2 )
     printf("Last nsuper %d\n", Glu->nsuper);
